@@ -138,6 +138,7 @@ class Registry:
         self.witness_classes: dict[str, Callable] = {}
         self.modules_loaded: set[str] = set()
         self.exec_hooks: dict[str, list[Callable]] = {}  # executor hooks contributed by contract modules
+        self.global_axioms: list[Callable] = []  # fn(ex) -> list of z3 axioms (definitions of pure attributes)
         self.lemmas: dict[str, Callable] = {}  # spec-level lemma obligations: name -> fn(ex) -> (hyps, goal)
 
     def add_hook(self, name: str, fn: Callable) -> None:
